@@ -71,7 +71,7 @@ PROPS = {
         explanation='exact final state of every rejection case of a data message, of foreign-instance and other-version messages (Props.C06: state unchanged, so every continuation is identical); for rejected AKE traffic the twin-run Go oracle runs the same genuine traffic with and without the rejected message and compares all plaintexts, errors, events and IsEncrypted values',
         assumptions=['behavioural equivalence of every continuation after rejected AKE messages is decided by the twin-run oracle; the theorems give the exact frame of what a rejected or ignored message may change', 'a rejected message that arrives as the final fragment of a stream keeps the version / peer instance the accepted fragments before it have bound (fragments are accepted, not rejected, when they arrive)']),
     'C11': dict(
-        module='Props.C11', level='proof',
+        module='Props.C11', extra_modules=['Props.C11Conv'], level='proof',
         profiles=dict(quick=[('smp', 40, 1)], thorough=[('smp', 300, 8)]),
         explanation='algebraic theorems for all exponents and secrets (Props.C11: honest proofs verify, equal secrets succeed on both sides, different secrets fail on both sides given p, q prime); model tied to smp*.go by differential runs with real 1536-bit arithmetic; Go oracle over honest runs (secret pairs incl. empty/long/binary/one bit apart, question, either initiator, back to back, traffic in between, both versions) and a relay between two separately keyed sessions',
         assumptions=['Nat.Prime p and Nat.Prime q are hypotheses of c11_unequal_fail (no primality certificate available offline)', 'the honest proof exponents are non-zero (hypothesis of the success theorems: a 2^-1535 event in which the library, like libotr, rejects an honest message)', 'binding of the hashed secret to fingerprints and SSID relies on collision resistance of SHA-256']),
